@@ -37,6 +37,14 @@ pub trait TSet: Trait + 'static {
     fn element_clone_addr<M: MemBuilder>(_v: &AnyVec<Self, M>) -> usize {
         unreachable!()
     }
+    /// `Clone::clone_from`
+    fn clone_from_vec<M: MemBuilder>(_dst: &mut AnyVec<Self, M>, _src: &AnyVec<Self, M>) {
+        unreachable!()
+    }
+    /// empty vector of `Alt<T>` (same layout as `T`, different type)
+    fn new_alt_in<T: crate::elem::Elem, M: MemBuilder>(_b: M) -> AnyVec<Self, M> {
+        unreachable!()
+    }
     fn lazy_elem<'a, M: MemBuilder, V: LazyVisitor>(_e: &Element<'a, Self, M>, _vis: V) -> V::Out {
         unreachable!()
     }
@@ -77,6 +85,12 @@ macro_rules! cloneable_set {
             }
             fn element_clone_addr<M: MemBuilder>(v: &AnyVec<Self, M>) -> usize {
                 v.element_clone() as usize
+            }
+            fn clone_from_vec<M: MemBuilder>(dst: &mut AnyVec<Self, M>, src: &AnyVec<Self, M>) {
+                dst.clone_from(src)
+            }
+            fn new_alt_in<T: crate::elem::Elem, M: MemBuilder>(b: M) -> AnyVec<Self, M> {
+                AnyVec::new_in::<crate::elem::Alt<T>>(b)
             }
             fn lazy_elem<'a, M: MemBuilder, V: LazyVisitor>(e: &Element<'a, Self, M>, vis: V) -> V::Out {
                 vis.visit(e)
